@@ -199,8 +199,21 @@ Built<K, G> fresh(vf::Tape & t, vf::Ctx & ctx, const G & ga)
     for (int j = 0; j < K; ++j) {
       const VecL v = S::gen_tangent(t, ctx, kV);
       for (int i = 0; i < Dof<G>; ++i) V(i, j) = static_cast<double>(v(i));
-      Vl.push_back(V.col(j).template cast<LD>());
     }
+    // class "nearly constant velocity": control differences equal up to a relative 1e-9 .. 1e-3 (velocity polynomials
+    // that are nearly, but not exactly, of lower degree: the regime of cancellation-free root formulas in arclength)
+    if (K >= 2 && t.choice(3) == 0) {
+      // control differences in arithmetic progression V_j = V_0 + j D (D = 0: constant velocity; D != 0: velocity linear
+      // in u, possibly changing sign), perturbed by a relative 1e-10 .. 1e-3
+      const double mag  = t.lrange(1e-10, 1e-3);
+      const bool linear = t.flag();
+      for (int i = 0; i < Dof<G>; ++i) {
+        const double D = linear ? (t.flag() ? -2 * V(i, 0) / (K - 1) * t.range(0.2, 3.0) : t.sym(1.0)) : 0.0;  // first form: sign change inside
+        for (int j = 1; j < K; ++j) V(i, j) = (V(i, 0) + j * D) * (1 + mag * t.sym(1.0)) + (t.choice(3) == 0 ? mag * t.sym(1.0) : 0.0);
+      }
+      ctx.label(linear ? "new:nearly-linear-velocity" : "new:nearly-constant-velocity");
+    }
+    for (int j = 0; j < K; ++j) Vl.push_back(V.col(j).template cast<LD>());
     if (t.flag()) b.s = Spline<K, G>(dur, V, ga);
     else {
       std::vector<T> cols;
